@@ -13,17 +13,22 @@ Local Open Scope list_scope.
 (* `-` and `_` are equivalent: names are compared after mapping `-` to `_` *)
 Definition same_name (a b : string) : bool := String.eqb (norm a) (norm b).
 
-(* all arguments of the call: positional ones (explicit, then the items of a list splat) and
-   named ones (explicit, then the entries of a map splat) *)
+(* all arguments of the call: positional ones (explicit, then the items of a list splat, then the
+   positional part of a splatted argument list) and named ones (explicit, then the keywords of a
+   splatted argument list, then the entries of a map splat) *)
 Definition all_positional (c : callT) : list value :=
   c_pos c ++ match c_lsplat c with
              | None => []
              | Some (VList l _ _) => l
              | Some VNull => []
              | Some v => [v]
-             end.
+             end
+        ++ match c_asplat c with Some (p, _) => p | None => [] end.
+(* the named arguments that are written or forwarded explicitly *)
+Definition checked_named (c : callT) : list (string * value) :=
+  c_named c ++ match c_asplat c with Some (_, kw) => kw | None => [] end.
 Definition all_named (c : callT) : list (string * value) :=
-  c_named c ++ match c_msplat c with None => [] | Some kvs => kvs end.
+  checked_named c ++ match c_msplat c with None => [] | Some kvs => kvs end.
 
 Fixpoint has_name (l : list (string * value)) (k : string) : bool :=
   match l with
